@@ -138,5 +138,15 @@ int main(int argc, char** argv) {
     sb_light_player_t pl; sb_light_player_init(&pl,&lp);
     sb_rgb_color_t c = sb_light_player_get_color_at(&pl, 10); printf("%d %d %d\n", c.red, c.green, c.blue);
   }
+
+  if (which == 18) { /* zero-length light program block: descriptor vs memory */
+    uint8_t f[] = {'s','k','y','b',1, 2, 0x00,0x00};
+    size_t n = sizeof(f); uint8_t* p = heapcopy(f,n);
+    sb_light_program_t lp; int rc = sb_light_program_init_from_binary_file_in_memory(&lp,p,n); printf("mem rc=%d\n",rc);
+    if (!rc) sb_light_program_destroy(&lp);
+    FILE* tf = tmpfile(); fwrite(f,1,n,tf); fflush(tf); lseek(fileno(tf),0,SEEK_SET);
+    rc = sb_light_program_init_from_binary_file(&lp, fileno(tf)); printf("fd rc=%d\n",rc);
+    if (!rc) sb_light_program_destroy(&lp);
+  }
   return 0;
 }
